@@ -556,11 +556,17 @@ func (b *TB) Learn(c *Term, truth bool) {
 		b.Learn(c.a0, !truth)
 	case OAnd:
 		if truth {
+			// twice: what one conjunct teaches may be needed to use the other (and the argument
+			// order of And is not stable across runs)
+			b.Learn(c.a0, true)
+			b.Learn(c.a1, true)
 			b.Learn(c.a0, true)
 			b.Learn(c.a1, true)
 		}
 	case OOr:
 		if !truth {
+			b.Learn(c.a0, false)
+			b.Learn(c.a1, false)
 			b.Learn(c.a0, false)
 			b.Learn(c.a1, false)
 		}
